@@ -86,6 +86,14 @@ def _uniq_name(draw, pool, used, label):
             used.add(name)
             return name
     base = draw(st.sampled_from(pool))
+    if used and draw(st.integers(0, 11)) == 0:
+        # a name built from a sibling's name: what a generator that derives its own locals from member names
+        # (xs_count, xs_size, ...) has to keep apart
+        sib = draw(st.sampled_from(sorted(used)))
+        cand = sib + "_" + draw(st.sampled_from(["count", "size", "len", "index", "idx", "start", "end", "bytes", "value",
+                                                 "values", "list", "tuple", "reader", "writer", "i", "n", "type"]))
+        if cand not in RESERVED and not cand.endswith(("_data", "_length")):
+            base = cand
     name = base
     k = 2
     while name in used:
@@ -144,6 +152,8 @@ class _Gen:
     def comment(self):
         if not self.f["comments"] or not self.boolean(0.15):
             return None
+        if self.boolean(0.06):
+            return ""           # <comment></comment>: present, but says nothing
         alpha = COMMENT_ALPHABET
         special = self.f["comment_special_chars"] and self.boolean(0.15)
         if special:
@@ -201,7 +211,9 @@ class _Gen:
         for _ in range(50):
             n = self.draw(st.integers(1, 3))
             name = ("_" if self.boolean(0.04) else "").join(self.draw(st.sampled_from(TYPE_WORDS)) for _ in range(n))
-            if dir_ in SUBDIRS and self.boolean(0.12):
+            if dir_ and self.boolean(0.08):
+                name = dir_.rpartition("/")[2].capitalize()      # pub/server declares Server, net declares Net
+            elif dir_ in SUBDIRS and self.boolean(0.12):
                 # a type of the parent directory whose name starts with the name of a sub-directory
                 # (pub: ServerInfoKind next to pub/server): path arithmetic on module names must not confuse the two
                 name = self.pick(sorted(SUBDIRS[dir_])).capitalize() + name
@@ -369,7 +381,7 @@ class _Gen:
         if self.f["hardcoded_special_chars"] and self.boolean(0.2):
             alpha = HARD_TEXT_SAFE + '"\\'
         if self.boolean(0.2):
-            alpha = alpha + "\u00ff\u00ff\u00e9\u20ac\u0178\u0416\U0001F600"
+            alpha = alpha + "\u00ff\u00ff\u00e9\u20ac\u0178\u0416\U0001F600e\u0301\u212b\ufb01"
         if n is None:
             n = self.draw(st.integers(1, 6))
         t = self.draw(st.text(alphabet=alpha, min_size=n, max_size=n))
@@ -540,6 +552,14 @@ class _Gen:
             ctx["names"].add(name)
         else:
             name = _uniq_name(self.draw, self.field_pool, ctx["names"], "f")
+        if length is None and not ctx["opt"] and self.boolean(0.07):
+            # the element count travelling as an ordinary member in front of the array (items_count, items)
+            cn = name + "_" + self.pick(["count", "size", "len", "n", "num"])
+            if cn not in ctx["names"] and cn not in RESERVED:
+                ctx["names"].add(cn)
+                cf = {"tag": "field", "name": cn, "type": self.pick(["char", "short"])}
+                body.append(cf)
+                ctx["fields"][cn] = cf
         ins = {"tag": "array", "name": name}
         delimited = ctx["lex"] and self.boolean(0.55)
         same = ctx["names"].outer_len.get(name)
@@ -909,7 +929,12 @@ def _gen_simple_body(self, dir_):
 
     def member():
         k = self.weighted([("int", 6), ("bool", 3), ("enum", 3 if enums else 0), ("str", 2),
-                           ("struct", 2 if fixed_structs else 0)])
+                           ("struct", 2 if fixed_structs else 0), ("array", 2)])
+        if k == "array":
+            # a fixed number of fixed-size elements (zero of them included) keeps the struct fixed-size
+            return {"tag": "array", "name": _uniq_name(self.draw, self.field_pool, names, "f"),
+                    "type": self.pick(INT_TYPES) if not fixed_structs or self.boolean(0.7) else self.pick_type(dir_, fixed_structs),
+                    "length": str(self.draw(st.sampled_from([0, 0, 1, 2, 3])))}
         ins = {"tag": "field", "name": _uniq_name(self.draw, self.field_pool, names, "f")}
         if k == "int":
             ins["type"] = self.pick(INT_TYPES)
